@@ -275,6 +275,132 @@ def scenario(g, install, ops, nxt0, held, pick, advance, check, release_within=3
         install(None, None, None)
 
 
+HISTORIES = ['move away and back', 'move into the same mailbox', 'copy into the same mailbox', 'move, then copy back']
+
+
+def history_scenario(g, install, kind, nxt0):
+    """short histories of the real maildir MailboxData.move/copy on two mailboxes; afterwards every mailbox is listed
+    with the real messages(): a message file appears under exactly one UID, and the operation returned at all.
+    returns error|None"""
+    UidList, Record, MailboxData, ObjectId = g['UidList'], g['Record'], g['MaildirMailboxData'], g['ObjectId']
+    now = [0]
+    fs = MemFS(lambda: now[0])
+    install(fs, lambda: now[0], lambda d: _Sleep(d))
+    try:
+        from mailbox import MaildirMessage
+        SP, DP = '/m/S', '/m/D'
+        smd, dmd = StubMaildir('s'), StubMaildir('d')
+        ul = UidList(SP, 7, nxt0, b'0' * 32)
+        m = MaildirMessage()
+        m.set_subdir('cur')
+        m.set_date(1000)
+        m.set_payload('content\r\n')
+        key = smd.add(m)
+        first = nxt0 - 1
+        ul._records[first] = Record(first, {}, key + ':2,')
+        ul.file_write()
+        UidList(DP, 7, 1, b'1' * 32).file_write()
+        S = MailboxData(ObjectId(b'S'), smd, SP)
+        D = MailboxData(ObjectId(b'D'), dmd, DP)
+
+        async def run():
+            if kind == 0:
+                u = await S.move(first, D)
+                return await D.move(u, S)
+            if kind == 1:
+                return await S.move(first, S)
+            if kind == 2:
+                return await S.copy(first, S)
+            u = await S.move(first, D)
+            return await D.copy(u, S)
+
+        async def listing(M):
+            return [(msg.uid, msg._key) async for msg in M.messages()]
+
+        def drive(co):
+            for _ in range(60):
+                try:
+                    y = co.send(None)
+                except StopIteration as e:
+                    return 'done', e.value
+                except (AttributeError, RuntimeError) as exc:
+                    # asyncio.Lock.acquire() on a lock that is taken wants to park on a future of the running loop
+                    # (there is none here: the coroutine is stepped by hand) - the task would wait
+                    if 'create_future' in str(exc) or 'running event loop' in str(exc):
+                        return 'blocked', exc
+                    raise
+                if not (isinstance(y, tuple) and y and y[0] == 'sleep'):
+                    co.close()
+                    return 'blocked', y
+            return 'blocked', None
+        st, val = drive(run())
+        if st != 'done':
+            return 'the operation never returns: it waits for a lock it holds itself (%s)' % HISTORIES[kind]
+        want = {0: 1, 1: 1, 2: 2, 3: 1}[kind]
+        for M, store in ((S, smd), (D, dmd)):
+            st, lst = drive(listing(M))
+            if st != 'done':
+                return 'listing a mailbox never returns'
+            keys = [k for _, k in lst]
+            if len(set(keys)) != len(keys):
+                return 'after "%s" one message file is listed under %d UIDs' % (HISTORIES[kind], len(keys))
+            if len(lst) != len(store.msgs):
+                return 'after "%s" a mailbox lists %d messages, its store holds %d' % (HISTORIES[kind], len(lst), len(store.msgs))
+        st, lst = drive(listing(S))
+        if len(lst) != want:
+            return 'after "%s" the first mailbox lists %d messages, expected %d' % (HISTORIES[kind], len(lst), want)
+        return None
+    finally:
+        install(None, None, None)
+
+
+def history_harness(g_ref):
+    def fn(eng):
+        from pysymex import loader, Outcome
+        from pysymex.core import SymInt
+        SymInt.HASH_OK = True          # {uid: record} dicts in messages(): constant hash, keys compared with ==
+        kind = eng.choose('history', len(HISTORIES))
+        nxt0 = eng.fresh_int('next_uid', 2, 120)
+
+        def install(fs, clock, sleep):
+            loader.FS_HOOK[0] = fs
+            loader.ENV_HOOK['clock'] = clock
+            loader.ENV_HOOK['sleep'] = sleep
+        err = history_scenario(g_ref, install, kind, nxt0)
+        return Outcome(err is None, witness=lambda m: {'history': kind, 'next_uid': nxt0.eval(m)}, info=err)
+    return fn
+
+
+def history_replay(w):
+    import types
+    import pymap.concurrent as C
+    import pymap.backend.maildir.io as IO
+    g = bindings()
+    saved = (C.os, C.time, C.asyncio, IO.os, IO.NamedTemporaryFile)
+
+    def install(fs, clock, sleep):
+        if fs is None:
+            C.os, C.time, C.asyncio, IO.os, IO.NamedTemporaryFile = saved
+            C.__dict__.pop('open', None)
+            IO.__dict__.pop('open', None)
+            return
+        import os as _os
+        pathns = types.SimpleNamespace(**{k: getattr(_os.path, k) for k in ('join', 'split', 'basename', 'dirname')})
+        pathns.exists = fs.path_exists
+        o = types.SimpleNamespace(stat=fs.stat, unlink=fs.unlink, remove=fs.remove, rename=fs.rename, path=pathns)
+        C.os = o
+        IO.os = o
+        C.time = types.SimpleNamespace(time=clock)
+        a = types.SimpleNamespace(**{k: v for k, v in vars(saved[2]).items() if not k.startswith('__')})
+        a.sleep = sleep
+        C.asyncio = a
+        C.open = fs.open
+        IO.open = fs.open
+        IO.NamedTemporaryFile = fs.named_temp
+    err = history_scenario(g, install, w['history'], w['next_uid'])
+    return [err] if err else []
+
+
 def bindings():
     from checks import _sim
     g = _sim.bindings()
